@@ -7,6 +7,7 @@ import Driver.C17
 import Driver.C13
 import Driver.C03
 import Driver.C06
+import Driver.C01
 
 def main (args : List String) : IO UInt32 := do
   let stdin ← IO.getStdin
@@ -20,4 +21,6 @@ def main (args : List String) : IO UInt32 := do
   | ["c13"] => Driver.lineLoop stdin stdout () Driver.C13.step; return 0
   | ["c03"] => Driver.lineLoop stdin stdout (⟨Zix.Hash.new, [], false⟩ : Driver.C03.St) Driver.C03.step; return 0
   | ["c06"] => Driver.lineLoop stdin stdout (Zix.Avl.Tree.new false) Driver.C06.step; return 0
+  | ["c01"] => Driver.lineLoop stdin stdout (⟨true, ⟨6, 3, 6⟩, none, ⟨1, 0⟩, none, none⟩ : Driver.C01.St) Driver.C01.step; return 0
+  | ["c01", "nocmp"] => Driver.lineLoop stdin stdout (⟨false, ⟨6, 3, 6⟩, none, ⟨1, 0⟩, none, none⟩ : Driver.C01.St) Driver.C01.step; return 0
   | _ => IO.eprintln "usage: zixdriver <component> < script"; return 2
